@@ -31,7 +31,7 @@ D, DT = datetime.date, datetime.datetime
 
 LPOOL = {k: list(v) for k, v in POOL.items()}
 LPOOL[2] = [7, 0, -3, 10 ** 20, 10 ** 400]
-LPOOL[3] = [1.5, 0.0, -2.25, float("inf")]
+LPOOL[3] = [1.5, 0.0, -2.25, float("inf"), -0.0]
 
 
 def val(cv):
@@ -588,6 +588,20 @@ def gen_table(rng, tier):
     yield {"fam": "table.partial", "cols": two, "nr": 2, "key": {"row": {"k": "slice", "a": None, "b": None, "c": None},
                                                                 "col": {"c": "list", "items": [0, 5], "tuple": False}},
            "value": {"v": "list", "items": [{"l": [[2, 2], [2, 2]], "t": "list"}, {"l": [[2, 2], [2, 2]], "t": "list"}]}}
+    # the same three shapes where the earlier column receives a value that is EQUAL to what it holds but of another exact type
+    # (0 -> 0.0 -> 0j, False -> 0, 0.0 -> -0.0, 0 -> False): a roll-back that compares storage by value instead of identity
+    # keeps the new storage under the old dtype
+    for ct, old, new_ in (("int", [2, 1], [3, 1]), ("int", [2, 1], [4, 1]), ("float", [3, 1], [4, 1]), ("bool", [1, 1], [2, 1]),
+                          ("bool", [1, 1], [3, 1]), ("float", [3, 1], [3, 4]), ("int", [2, 1], [1, 1]), ("complex", [4, 1], [3, 1])):
+        eq = [{"name": "a", "vals": [old, old], "ct": ct}, {"name": "b", "vals": [[5, 0], [5, 1]], "ct": "str"}]
+        yield {"fam": "table.partial", "cols": eq, "nr": 2, "key": {"row": {"k": "int", "i": 0}, "col": {"c": "none"}},
+               "value": {"v": "list", "items": [{"x": new_}, {"x": [2, 2]}]}}
+        yield {"fam": "table.partial", "cols": eq, "nr": 2, "key": {"row": {"k": "slice", "a": None, "b": None, "c": None},
+                                                                   "col": {"c": "none"}},
+               "value": {"v": "scalar", "x": new_}}
+        yield {"fam": "table.partial", "cols": eq, "nr": 2, "key": {"row": {"k": "slice", "a": None, "b": None, "c": None},
+                                                                   "col": {"c": "list", "items": [0, 5], "tuple": False}},
+               "value": {"v": "list", "items": [{"l": [new_, new_], "t": "list"}, {"l": [[2, 2], [2, 2]], "t": "list"}]}}
 
 
 _partial_budget = [0]
